@@ -118,6 +118,15 @@ var fmtCases = []fmtCase{
 		[]string{`{"v":"1700000000"}`, `{"v":5}`}},
 	{"SumNumStr", `{"type":"object","required":["v"],"properties":{"v":{"oneOf":[{"type":"number"},{"type":"string"},{"type":"boolean"}]}}}`,
 		[]string{`{"v":1.5}`, `{"v":"s"}`, `{"v":false}`, `{"v":-0.0}`}},
+	// K22: generic wrappers of arrays are named after the item postfix only — two optional nullable arrays of
+	// date-time with different layouts share one wrapper type
+	{"TimeArrLayouts", `{"type":"object","properties":{
+		"a":{"type":"array","nullable":true,"items":{"type":"string","format":"date-time","x-ogen-time-format":"2006-01-02 15:04"}},
+		"b":{"type":"array","nullable":true,"items":{"type":"string","format":"date-time"}}}}`,
+		[]string{`{"a":["2024-05-06 07:08"]}`, `{"b":["2024-05-06T07:08:00Z"]}`, `{"a":["2024-05-06 07:08"],"b":["2024-05-06T07:08:00Z"]}`, `{"a":null,"b":null}`, `{}`}},
+	// K24: the variant of anyOf[integer, number] is chosen by the spelling of the number
+	{"SumIntNum", `{"type":"object","required":["v"],"properties":{"v":{"anyOf":[{"type":"integer"},{"type":"number"}]}}}`,
+		[]string{`{"v":3}`, `{"v":3.5}`, `{"v":3.0}`, `{"v":1e2}`}},
 	{"NullDefaults", `{"type":"object","required":["a","ri"],"properties":{
 		"a":{"type":"string","nullable":true,"default":null},"ri":{"type":"integer","nullable":true,"default":null},
 		"b":{"type":"integer","nullable":true,"default":null},"c":{"type":"string","default":"x"},"d":{"type":"string","nullable":true,"default":"y"},
@@ -170,6 +179,16 @@ func c04Formats(r *lp.Run, drv *gc.Driver, pkg *gc.Pkg) {
 			in := map[string]any{"type": c.name, "schema": json.RawMessage(c.schema), "instance": inst}
 			r.PropCheck()
 			fail := func(what, obs, exp string) {
+				switch c.name {
+				case "TimeArrLayouts":
+					r.Known(lp.PropFail{Property: "C04", Class: "K22", What: what, Input: in, Observed: obs, Expected: exp})
+					return
+				case "SumIntNum":
+					if strings.Contains(what, "different value") {
+						r.Known(lp.PropFail{Property: "C04", Class: "K24", What: what, Input: in, Observed: obs, Expected: exp})
+						return
+					}
+				}
 				r.Fail(lp.PropFail{Property: "C04", What: what, Input: in, Observed: obs, Expected: exp})
 			}
 			if one["decode_err"] != nil || one["decode_panic"] != nil || one["driver_panic"] != nil {
